@@ -3,7 +3,7 @@
 (`FnSEq.*` in lean/Proofs/FnS*.lean: generated accessor = model function of its defining inputs). Run after adding theorems."""
 import re, os
 ROOT = os.path.dirname(os.path.dirname(os.path.abspath(__file__)))
-HELP = ("s1_", "s2_", "s3_", "s4_", "sb_", "sd_")
+HELP = ("s1_", "s2_", "s3_", "s4_", "sb_", "sd_", "sf_")
 def thms(mod):
     src = open(os.path.join(ROOT, "lean/Proofs", mod + ".lean"), encoding="utf-8").read()
     names = re.findall(r"^(?:@\[simp\] )?theorem ([A-Za-z0-9_']+)", src, re.M)
@@ -12,16 +12,54 @@ PROPS = {
  "C08": ("accessors: every translated accessor returns `.ok` of the model's value under the index ranges of a library-built object, and panics exactly outside the stated guards", ["FnSBase", "FnS1", "FnS2", "FnS3", "FnSYearObj", "FnSTaoFoto", "FnSDecoders"]),
  "C11": ("two routes, one value: the `Lunar.GetTimeX` accessors and the hour object's (`LunarTime`) accessors, the eight-character object and the `Lunar` pillars are each tied to the SAME model function of the same indices; the two routes to the hour's suitable / avoid lists are the same decoder call", ["FnSBase", "FnS1", "FnS2", "FnS3", "FnSDecoders"]),
  "C18": ("attributes are functions of their defining inputs: each translated accessor equals a model function applied to the index fields named in its statement only", ["FnSBase", "FnS1", "FnS2", "FnS3", "FnSYearObj", "FnSDecoders"]),
- "C17": ("Taoist / Buddhist predicates and renderings of the regenerated code equal the model", ["FnSTaoFoto", "FnSRender"]),
+ "C17": ("Taoist / Buddhist predicates and renderings of the regenerated code equal the model", ["FnSTaoFoto", "FnSRender", "FnSTaoDay"]),
+ "C13": ("festivals and seasonal names: the regenerated `Lunar.GetFestivals` reports New Year's Eve exactly under the coded rule (and nothing in the table is called 除夕); `GetHou` / `GetWuHou` equal the model", ["FnSLunarFest", "FnSHou"]),
  "C19": ("formatting: `%0wd`, `ToYmd`, `ToYmdHms` and the Chinese renderings of the regenerated code equal the model's renderings", ["FnSFmt", "FnSRender"]),
- "C20": ("zodiac sign: the regenerated `GetXingZuo` equals the model's for all month / day integers", ["FnSXingZuo"]),
+ "C20": ("zodiac sign and civil festivals: the regenerated `GetXingZuo` equals the model's for all month / day integers; the regenerated `Solar.GetFestivals` is the model's fixed-date + k-th weekday + last-weekday list", ["FnSXingZuo", "FnSSolarFest"]),
 }
+PINS = {
+ "C13": ["calendar.Lunar.GetFestivals", "calendar.Lunar.GetHou", "calendar.Lunar.GetWuHou"],
+ "C20": ["calendar.Solar.GetFestivals"],
+ "C17": ["calendar.Tao.IsDaySanHui", "calendar.Tao.IsDaySanYuan", "calendar.Tao.IsDayWuLa", "calendar.Tao.IsDayBaJie"],
+}
+gsrc = open(os.path.join(ROOT, "lean/Gen/FnS.lean"), encoding="utf-8").read()
+STR = r'"((?:[^"\\]|\\.)*)"'
+def block(name):
+    m = re.search(r"^def %s : [^\n]*:= \[\n(.*?)\n\]\n" % name, gsrc, re.S | re.M)
+    return m.group(1) if m else ""
+def rows(name, n):
+    out = []
+    for line in block(name).split("\n"):
+        line = line.strip().rstrip(",")
+        if not line:
+            continue
+        m = re.match(r"^\(" + ", ".join([STR] * n) + r"\)$", line)
+        if not m:
+            raise SystemExit("cannot parse %s row: %s" % (name, line))
+        out.append(m.groups())
+    return out
+ATOMS, DROPPED, NOTES = rows("atoms", 4), rows("dropped", 2), rows("notes", 2)
+def q(x): return '"' + x + '"'
+def pin_text(fn):
+    a = [x[1:] for x in ATOMS if x[0] == fn]; d = [x[1] for x in DROPPED if x[0] == fn]; n = [x[1] for x in NOTES if x[0] == fn]
+    al = ",\n     ".join("(%s, %s, %s)" % (q(x[0]), q(x[1]), q(x[2])) for x in a)
+    return "theorem pin_%s : (Gen.FnS.translated.contains %s && listing %s ==\n    (([%s] : List (String × String × String)),\n     ([%s] : List String),\n     ([%s] : List String))) = true := by decide +kernel\n" % (
+        re.sub(r"[^A-Za-z0-9]", "_", fn), q(fn), q(fn), al, ",\n     ".join(q(x) for x in d), ",\n     ".join(q(x) for x in n))
+LISTING = """set_option maxRecDepth 100000
+def listing (fn : String) : List (String × String × String) × List String × List String :=
+  ((Gen.FnS.atoms.filter (fun a => a.1 == fn)).map (fun a => a.2),
+   (Gen.FnS.dropped.filter (fun a => a.1 == fn)).map (fun a => a.2),
+   (Gen.FnS.notes.filter (fun a => a.1 == fn)).map (fun a => a.2))
+"""
 for pid, (title, mods) in sorted(PROPS.items()):
     names = []
     for m in mods:
         names += ["FnSEq." + n for n in thms(m)]
     seen = set(); names = [n for n in names if not (n in seen or seen.add(n))]
     body = ",\n  ".join("``" + n for n in names)
+    pins = ""
+    if pid in PINS:
+        pins = LISTING + "\n" + "\n".join(pin_text(fn) for fn in PINS[pid])
     txt = f"""/-
 {pid} (regenerated function bodies, string mode) — {title}.
 `Gen/FnS.lean` is regenerated from /repo's source on every run by gotrans/fntrans.go in string mode (every function of the module that
@@ -31,6 +69,7 @@ edit pushes out of the subset disappears from `Gen/FnS.lean` and its theorem no 
 {chr(10).join('import Proofs.' + m for m in mods)}
 namespace Props.FnS{pid}
 
+{pins}
 def obligations : List Lean.Name := [
   {body} ]
 
